@@ -2,6 +2,10 @@
 import glob, json, os
 V = os.path.dirname(os.path.dirname(os.path.abspath(__file__)))
 HIST = {
+    "C16b-m1": "undecided for the prover at first (the collection's member type had no configuration field: the changed body left the subset), reported by the bounded stand-in; the member type now carries its own configuration and the obligation C16.lengths fails",
+    "C16b-m2": "not in the bounded scope before this change was delivered (A-alias: not decided by proof); bounded C16 now lets the caller extend the list it handed to the constructor",
+    "C06b-m2": "reported by the bounded decoder at first; CTT.to_tokens had been put under contract in the same session, its clauses now fail (they restate the length first, so a wrong length is a failed obligation instead of an out-of-range index)",
+    "C09b-m2": "not in the bounded scope before this change was delivered (endpoints tried were -1, n, n+3, ...): bounded C09 now tries values congruent to in-grid ones modulo 2^8 / 2^16 / 2^32, and a narrowing np.array(..., dtype=int8) now carries a range obligation in the prover (SolvedMaze.__init__ is in C09's proof list)",
     "C05b-m1": "missed at first (no dataset in the bounded scope had been through a file before being written again); bounded C05 now includes second-generation datasets (read from a full / minimal file, then every format again)",
     "C05b-m2": "missed at first (no configuration with endpoint options in the bounded scope of C05; C18's check has them); bounded C05 now writes configurations recording coordinate lists, flags and None",
     "C08b-m1": "missed at first by C08 (its config-driven check bypassed the cache; C11's proof of from_config caught it: clause served-from-file); bounded C08 now makes the same request twice through a local cache directory",
